@@ -65,4 +65,12 @@ CHECKS = {
    technique='Hypothesis random structures with heterogeneous state/label types and operator-looking labels, two-step history (call, mutate the result, call again) in 16 processes; oracle = type/membership/ownership of the result, no exception, snapshot',
    text='For structures whose states are ints, strings, tuples, frozensets or mixed and whose labels include operator-looking strings and non-strings, and formulas (object or quoted text) over K\'s labels and absent names: no exception of any type, the result is a set of K\'s states, it is a fresh object not aliasing anything in K, mutating it does not change the next result, K is unchanged.',
    note='No exactness claim (C01-C03). Formula depth <= 3 (recursion limit is an interpreter setting). None/bools are not used as states.'),
+ 'C04': dict(
+   technique='exhaustive small-scope enumeration + Hypothesis random cases of metamorphic laws (Boolean laws, A/E duality, fixpoint expansion) and differential comparison between the three checkers and between text/object input; no reference implementation',
+   text='For every structure of the small scope and tables of CTL / LTL / CTL* formulas: every entry point a formula is valid for (own-language object, CTL* object, library str, independent text, sibling objects) must return one and the same set; not/and/or/-->/n-ary laws, the 10 CTL dualities, the 8 CTL fixpoint expansions, CTL* A g = not E not g for arbitrary path g, and the LTL expansion laws must hold between answers of the code under test.',
+   note='No trusted reference: this check exists to catch a checker and the reference of C01-C03 being wrong in the same way. Sibling-language objects may be refused with TypeError (a different set is a violation).'),
+ 'C05': dict(
+   technique='exhaustive enumeration (all formulas <=2 operators of CTL*, CTL, LTL) + Hypothesis random formulas depth<=4; syntactic alphabet walk + equivalence decided by the independent reference on every small-scope structure / every lasso up to a length bound',
+   text='get_equivalent_restricted_formula() must return an object of the same logic using only not, or, X, U, E (CTL: E with X/U/G), atoms and Booleans, and R-STAR / R-PATH must give it the same states on every structure of S(1)+S(2) (+S(3) stride) and the same truth values at every position of every lasso with |prefix|+|loop| <= 4/5; LNot(f) must not start with two negations, stay in the logic and be equivalent to not f.',
+   note='Trusted: vp/ref.py. Equivalence is decided on the small scope only. LTL.A(g) is outside the domain (restricted LTL has no quantifier).'),
 }
